@@ -226,26 +226,33 @@ class GradCase:
     return out
 
 
-def main(ck):
+RULE = ('models: vf.gen_mjx.models without active contacts; family S = no constraint rows (limits, frictionloss, equalities '
+        'stripped), family K = equalities/limits/frictionloss + contact slots against a plane 4 below (strictly inactive), '
+        'solver iterations=1, pyramidal cone; Euler/implicitfast/RK4. Points: states x params; excluded within 1e-3 of ctrl/force/act '
+        'clamps, joint/tendon limit boundaries, tendon spring dead-band, any active contact. g = (qacc, qvel\', qpos\', act\') of '
+        'mjx.step; inputs = tangent dq, qvel, ctrl, act, model parameters. Non-trivial = nv>=3 and (free/ball joint or stateful '
+        'actuator); distinct by (model xml, state seed).')
+ASSUMPTIONS = ['finite differences are taken on the same jitted function as AD (central, h=1e-6*max(1,|x_i|))',
+               'reverse mode through the constraint solver is only defined for opt.iterations=1 (while_loop otherwise): '
+               'family K uses iterations=1, family S has no constraint rows',
+               'model parameters are perturbed in mjx.Model only (derived compile-time quantities such as invweight0 are inputs, not recomputed)',
+               'elliptic cone excluded: candidate finding F10 (all gradients NaN with any contact slot) / F2 (TypeError without); C45_FINDINGS=1 re-enables']
+
+
+def shard_main(ck, shard, nshards):
   mujoco, mjx, jax, jp = mjxload.load()
   lib = ck.lib('rel')
-  ck.rule = ('models: vf.gen_mjx.models without active contacts; family S = no constraint rows (limits, frictionloss, equalities '
-             'stripped), family K = equalities/limits/frictionloss + contact slots against a plane 4 below (strictly inactive), '
-             'solver iterations=1; Euler/implicitfast/RK4. Points: states x params; excluded within 1e-3 of ctrl/force/act clamps, '
-             'joint/tendon limit boundaries, tendon spring dead-band, any active contact. g = (qacc, qvel\', qpos\', act\') of mjx.step; '
-             'inputs = tangent dq, qvel, ctrl, act, model parameters. Non-trivial = nv>=3 and (free/ball joint or stateful actuator); '
-             'distinct by (model xml, state seed).')
-  ck.assumptions = ['finite differences are taken on the same jitted function as AD (central, h=1e-6*max(1,|x_i|))',
-                    'reverse mode through the constraint solver is only defined for opt.iterations=1 (while_loop otherwise): '
-                    'family K uses iterations=1, family S has no constraint rows',
-                    'model parameters are perturbed in mjx.Model only (derived compile-time quantities such as invweight0 are inputs, not recomputed)']
   worst = collections.defaultdict(float)
   npoints = 2 if ck.quick else 6
-  nmodels = ck.budget(3, 60)
+  nmodels = max(1, -(-ck.budget(6, 60) // nshards))
+  t_start = time.time()
+  t_budget = float(os.environ.get('C45_TIME', 100 if ck.quick else 1200))
   names_seen = collections.Counter()
 
   def test(case):
     gm, seeds = case
+    if time.time() - t_start > t_budget and len(ck.nontrivial) >= 2:
+      ck.discard('time-budget'); return
     try:
       c = gx.build(lib, gm.xml)
     except gx.CompileDiscard:
@@ -327,8 +334,19 @@ def main(ck):
       print('  model nv=%d nu=%d na=%d nx=%d nefc=%d %s fam=%s: %.1fs worst=%s' % (
           tm.nv, tm.nu, tm.na, G.nx, c.dx0._impl.nefc, gm.info['option']['integrator'], gm.info['family'], time.time() - t0, dict(worst)), flush=True)
   ck.run_hypothesis(test, st.tuples(smooth_models(), st.lists(mg.state_seed(), min_size=npoints, max_size=npoints, unique=True)),
-                    nmodels, name='grad', shrink=False)
+                    nmodels, name='grad-%d' % shard, shrink=False)
+  ck.extra['worst'] = dict(worst)
+
+
+def main(ck):
+  from vf import mjxshard
+  ck.rule = RULE
+  ck.assumptions = ASSUMPTIONS
+  nshards = int(os.environ.get('C45_SHARDS', 3 if ck.quick else 6))
+  extra = mjxshard.run(ck, 'c45', nshards, timeout=(600 if ck.quick else 3600))
+  worst = mjxshard.merge_max(extra.get('worst', []))
   ck.extra['worst_row_scaled_err'] = {k: float('%.3g' % v) for k, v in worst.items()}
+  ck.extra['shards'] = nshards
   ck.extra['tolerances'] = dict(fd=TOL_FD, fwd_rev=TOL_FWD_REV, h=H, clamp_exclusion=CLAMP_EXCL)
 
 
